@@ -69,6 +69,24 @@ pub fn replay(property: &str, part: &str, case: &serde_json::Value) -> Option<Re
         ("C15", "no-limit") => replay_part(&c15::NoLimit, case, 1),
         ("C12", "abandon-sweep") => replay_part(&c12::Sweeps, case, 1),
         ("C12", "abandon-history") => replay_part(&c12::Histories, case, 1),
+        ("C01", "single-byte-mutations") => {
+            // {"cert_key","offset","value","verifier"}: the same mutation as a verifier case
+            let c = c01::VerifierCase {
+                victim_key: case["cert_key"].as_u64().unwrap_or(0),
+                adversary_key: 0,
+                kind: c01::CertKind::ByteAt(case["offset"].as_u64().unwrap_or(0) as usize, case["value"].as_u64().unwrap_or(0) as u8),
+                verifier: case["verifier"].as_u64().unwrap_or(0) as u8,
+                with_intermediate: false,
+            };
+            replay_part(&c01::Verifiers, &serde_json::to_value(&c).unwrap(), 1)
+        }
+        ("C07", "enumerations") => {
+            let rep = c07::enumerations("C07", &crate::core::KnownFindings::default());
+            match rep.violation {
+                None => Ok(()),
+                Some(v) => Err((v.key, v.msg, 1)),
+            }
+        }
         ("C01", "verifier") => replay_part(&c01::Verifiers, case, 1),
         ("C01", "handshake-signature") => replay_part(&c01::Signatures, case, 1),
         ("C01", "handshake") => replay_part(&c01::Handshakes, case, 1),
@@ -97,6 +115,7 @@ pub fn replay(property: &str, part: &str, case: &serde_json::Value) -> Option<Re
         ("C05", "both-sides") => replay_part(&c05::BothSidesPart, case, 1),
         ("C05", "networks-realtime") => replay_part(&c05::NetworksRealTime, case, 2),
         ("C05", "networks") => replay_part(&c05::Networks, case, 1),
+        ("C09", "disconnect-under-contention") => replay_part(&c09::DisconnectUnderContention, case, 10),
         ("C09", "histories") => replay_part(&c09::Histories, case, 1),
         ("C13", "backoff-arithmetic") => replay_part(&c13::Backoff, case, 1),
         ("C13", "schedules") => replay_part(&c13::Schedules, case, 1),
